@@ -2,9 +2,9 @@
 """C19 implementation runner (runs in /venv with PYTHONPATH=<repo>/src).
 
 stdin : {"cases": [CASE, ...]}
-  CASE (plateau) = {"kind": "plateau", "coord": "float"|"float32"|"int"|"datetime",
+  CASE (plateau) = {"kind": "plateau", "coord": "float"|"float32"|"int"|"datetime", "xdtype": "int32" (optional, coord int),
                     "x": [hex-float strings (float32: the exact value) | ints (int64 values / datetime64[ns] ticks)],
-                    "y": [hex-float strings], "ydtype": "float64"|"float32"|"int64",
+                    "y": [hex-float strings], "ydtype": "float64"|"float32"|"int64"|"int32",
                     "atol": hex-float, "min_n": int}
   CASE (phase)   = {"kind": "phase", "f": [hex-float], "fdtype": "float64"|"float32"|"int64",
                     "ref": hex-float, "rtol": hex-float}
@@ -54,23 +54,23 @@ def cx_of(kind):
     return lambda v: int(np.asarray(v).astype('int64'))
 
 
-def coord_var(kind, x):
+def coord_var(kind, x, xdtype=None):
     if kind == 'float':
         return sc.array(dims=['t'], values=np.array([float.fromhex(v) for v in x], dtype='float64'), unit='s')
     if kind == 'float32':
         return sc.array(dims=['t'], values=np.array([float.fromhex(v) for v in x], dtype='float64').astype('float32'),
                         unit='s')
     if kind == 'int':
-        return sc.array(dims=['t'], values=np.array(x, dtype='int64'), unit='s')
+        return sc.array(dims=['t'], values=np.array(x, dtype=xdtype or 'int64'), unit='s')
     return sc.datetimes(dims=['t'], values=np.array(x, dtype='int64').astype('datetime64[ns]'), unit='ns')
 
 
-def coord_elems(kind, x):
+def coord_elems(kind, x, xdtype=None):
     """numpy values to be written into an existing coordinate"""
     if kind in ('float', 'float32'):
         return np.array([float.fromhex(v) for v in x], dtype='float64').astype('float64' if kind == 'float' else 'float32')
     if kind == 'int':
-        return np.array(x, dtype='int64')
+        return np.array(x, dtype=xdtype or 'int64')
     return np.array(x, dtype='int64').astype('datetime64[ns]')
 
 
@@ -87,7 +87,7 @@ def atol_unit(kind):
 
 
 def make_da(c):
-    return sc.DataArray(data_var(c.get('ydtype'), c['y']), coords={'t': coord_var(c['coord'], c['x'])})
+    return sc.DataArray(data_var(c.get('ydtype'), c['y']), coords={'t': coord_var(c['coord'], c['x'], c.get('xdtype'))})
 
 
 def bins_content(p, kind):
@@ -202,9 +202,9 @@ def run_history(c):
             elif how == 'data':
                 da.data = data_var(st.get('ydtype') or o.get('ydtype'), st['y'])
             elif how == 'coord':
-                da.coords['t'] = coord_var(o['coord'], st['x'])
+                da.coords['t'] = coord_var(o['coord'], st['x'], o.get('xdtype'))
             elif how == 'coord_values':
-                v = coord_elems(o['coord'], st['x'])
+                v = coord_elems(o['coord'], st['x'], o.get('xdtype'))
                 da.coords['t'].values[lo:lo + len(v)] = v
             else:
                 raise ValueError(how)
@@ -222,7 +222,7 @@ def run_history(c):
                 if kind == 'datetime':
                     p.bins.coords['t'] += sc.scalar(int(st['c']), unit='ns', dtype='int64')
                 elif kind == 'int':
-                    p.bins.coords['t'] += sc.scalar(int(st['c']), unit='s', dtype='int64')
+                    p.bins.coords['t'] += sc.scalar(int(st['c']), unit='s', dtype=o.get('xdtype') or 'int64')
                 else:
                     p.bins.coords['t'] += sc.scalar(float.fromhex(st['c']), unit='s',
                                                     dtype='float64' if kind == 'float' else 'float32')
@@ -231,7 +231,7 @@ def run_history(c):
                 b.values[st['j'] % len(b)] = data_elems(str(b.dtype), [st['v']])[0]
             elif how == 'event_coord':
                 b = p[st['bin'] % len(p)].value
-                b.coords['t'].values[st['j'] % len(b)] = coord_elems(kind, [st['c']])[0]
+                b.coords['t'].values[st['j'] % len(b)] = coord_elems(kind, [st['c']], o.get('xdtype'))[0]
             else:
                 raise ValueError(how)
             out.append(None)
